@@ -49,6 +49,10 @@ class ScfForLowering(RewritePattern):
 class ScfYieldLowering(RewritePattern):
     @op_type_rewrite_pattern
     def match_and_rewrite(self, op: scf.YieldOp, rewriter: PatternRewriter) -> None:
+        # only the terminator of a loop body is lowered: the yields of `scf.if`,
+        # `scf.while`, `scf.index_switch`, … keep their parent, which is not converted
+        if not isinstance(op.parent_op(), scf.ForOp | riscv_scf.ForOp):
+            return
         rewriter.replace(op, riscv_scf.YieldOp(*cast_operands_to_regs(rewriter, op)))
 
 
